@@ -1,2 +1,51 @@
--- driver stub (not built yet)
-def main : IO Unit := pure ()
+import QmcModel.Proto
+import QmcModel.Basic
+import QmcModel.IsingHam
+import QmcModel.Worldline
+open Qmc Qmc.Proto
+
+/-- C06 / C07 driver. Input (one call of the real code per line):
+`<rel> <call> <ham> <sweep-cutoff> <state-before> <slots-before> <state-after> <slots-after>`
+Output: `rel:<0|1> cons:<0|1> legal:<0|1> fold:<states entering each slot>` where `rel` is the
+decider of the relation named by `<rel>` (QmcModel/Worldline.lean), `cons` decides
+`Consistent after`, `legal` decides `Legal H after`. -/
+def showFold (l : List (List Bool)) : String :=
+  if l.isEmpty then "-" else String.intercalate "," (l.map showBits)
+
+def parseHam (tok : String) : Option (Ham × Option IsingSpec) :=
+  if tok.startsWith "I!" then
+    (parseIsing tok).map fun s => (s.ham, some s)
+  else if tok.startsWith "H" then
+    some (tableHam (parseTableHam tok), none)
+  else none
+
+def relB (rel : String) (H : Ham) (spec : Option IsingSpec) (L : Nat) (b a : Config) : Bool :=
+  let ising (b a : Slots) : Bool := match spec with
+    | some s => isingMaskB s b a
+    | none => true
+  match rel with
+  | "init" => true
+  | "diag" => diagSweepB H L b a
+  | "icluster" => spinFlipB b a && ising b.slots a.slots && flipKeepsWeightB H b.slots a.slots
+  | "gcluster" => spinFlipB b a && symMaskB b.slots a.slots && flipKeepsWeightB H b.slots a.slots
+  | "loop" => spinFlipB b a && flipKeepsWeightB H b.slots a.slots
+  | "free" => freeB b a && spinFlipB b a
+  | "rvb" => rvbB H b a && ising b.slots a.slots && flipKeepsWeightB H b.slots a.slots
+  | "move" => moveB b a
+  | _ => false
+
+def step (toks : List String) : String :=
+  match toks with
+  | [rel, _call, ham, sweep, bs, bsl, as, asl] =>
+    match parseHam ham with
+    | none => "bad-ham"
+    | some (H, spec) =>
+      let b : Config := { state := parseBits bs, slots := parseSlots bsl }
+      let a : Config := { state := parseBits as, slots := parseSlots asl }
+      let r := relB rel H spec (parseNat sweep) b a
+      let c := decide (Consistent a)
+      let l := legalB H a && hamWFB H a.state.length
+      s!"rel:{showBool r} cons:{showBool c} legal:{showBool l} fold:{showFold (foldStates a.state a.slots)}"
+  | _ => "bad-op"
+
+def main : IO Unit := run step
